@@ -172,6 +172,8 @@ class Gen:
         r = self.rng
         if d <= 0:
             return self.leaf(t, sc)
+        if r.random() < 0.02:
+            t = self.some_type()             # an ill-typed spot now and then: the error paths
         # what the nearest constructs bound is used with preference
         for name in sc.fresh:
             if name in sc.funcs:
@@ -331,8 +333,21 @@ class Gen:
         return ['method', e, 'aggregate', [body, ['lit', self.rng.choice((0, 1))]], []]
 
     def user_call(self, item, sc, d):
+        """a call of a def-ined function; now and then with fewer / more arguments than its body
+        names, or with a keyword argument (absent ones are null, extra ones are just published)"""
+        r = self.rng
         name, (params, _) = item
-        return ['call', name, [self.expr(p, sc, d - 1) for p in params], []]
+        args = [self.expr(p, sc, d - 1) for p in params]
+        kw = []
+        roll = r.random()
+        if roll < 0.15 and args:
+            args.pop()
+        elif roll < 0.25:
+            args.append(self.expr('int', sc, d - 1))
+        elif roll < 0.37:
+            nm = self.new_name()
+            kw = [[['kw', nm], self.expr(self.some_type(True), sc, d - 1)]]
+        return ['call', name, args, kw]
 
     # ------------------------------------------------------------ context constructs
     def wrapper(self, t, sc, d):
@@ -406,7 +421,7 @@ class Gen:
         self.pool.update(('$' + nm, '$' + nm2))
         x = ['var', '$' + nm]
         xs = e(('list', 'int'))
-        k = r.randrange(12)
+        k = r.randrange(14)
         if k == 0:      # a binding made in one list element, read in the next
             return ['list', [['arrow', ['call', 'let', [], [[['kw', nm], e('int')]]], x], x, e('any')]]
         if k == 1:      # a binding made inside a lambda body, read by a later lambda and outside
@@ -444,6 +459,17 @@ class Gen:
         if k == 10:     # unpack then lambda
             return ['arrow', ['method', ['list', [e('int'), e('int')]], 'unpack', [['kw', nm], ['kw', nm2]], []],
                     ['method', xs, 'where', [['bin', 'ge', self.var('$1'), x]], []]]
+        if k == 12:     # several calls of one function with different argument lists
+            body = ['list', [['var', '$1'], ['var', '$2'], x, self.var('$1')]]
+            calls = [['call', 'f', [e('int'), e('str')], []], ['call', 'f', [e('int')], []],
+                     ['call', 'f', [e('int')], [[['kw', nm], e('int')]]], ['call', 'f', [], []]]
+            r.shuffle(calls)
+            return ['arrow', ['call', 'def', [['kw', 'f'], body], []], ['list', calls[:r.choice((2, 3, 4))]]]
+        if k == 13:     # recursion: every activation has its own parameters
+            rec = ['bin', 'and', ['bin', 'gt', self.var('$1'), ['lit', 0]],
+                   ['call', 'g', [['bin', 'sub', self.var('$1'), ['lit', 1]]], []]]
+            body = ['list', [self.var('$1'), rec, self.var('$1')]]
+            return ['arrow', ['call', 'def', [['kw', 'g'], body], []], ['call', 'g', [['lit', r.choice((1, 2, 3))]], []]]
         # a definition is visible only below its `->`
         return ['list', [['arrow', ['call', 'def', [['kw', 'f'], e('int')], []], ['call', 'f', [], []]],
                          ['call', 'f', [], []] if r.random() < 0.5 else ['call', 'len', [['list', [x]]], []]]]
